@@ -82,8 +82,8 @@ def handle (line : String) : String :=
   | ["REALIZES", src, tgt, instrs, deps, ids] => Spec.handleRealizes src tgt instrs deps ids
   | ["PLAINPARSE", text] => Plain.handlePlainParse text
   | ["PLAINPRINT", p0, items] => Plain.handlePlainPrint p0 items
-  | ["ENC", bs, b0, lim, mode, term, instrs, src, tgt, terms, memenc, pairs, ls, ledges, wts] =>
-    Enc.handleEnc bs b0 lim mode term instrs src tgt terms memenc pairs ls ledges wts
+  | ["ENC", bs, b0, lim, mode, term, instrs, src, tgt, terms, memenc, pairs, ls, ledges, wts, emp] =>
+    Enc.handleEnc bs b0 lim mode term instrs src tgt terms memenc pairs ls ledges wts emp
   | _ => "error:unknown-request"
 
 partial def loop (h : IO.FS.Stream) (out : IO.FS.Stream) : IO Unit := do
